@@ -9,10 +9,9 @@ import WcModel.Proofs.Norm
   Proved : for EVERY token list that satisfies the stated maximal-munch side condition, the
            scanner returns exactly the concatenation of the tokens' denotations, the first
            failing token deciding the error (`norm_tokens`).  The clauses of the property are
-           corollaries.  `unicodedata.lookup` and the Unicode decimal-digit table are parameters.
-  Outside the theorem (by the `Adjacent`/`WF` hypotheses, and reported by the check's search):
-           `\x` `\u` `\U` followed by *non-ASCII* Unicode decimal digits — the code's `\d` accepts
-           them and `int(_,16)` converts them, e.g. `\x٣٣` decodes to `3`.
+           corollaries.  `unicodedata.lookup` is a parameter.
+  Repaired by a `fix:` commit (D20): `\x` `\u` `\U` followed by *non-ASCII* Unicode decimal
+           digits used to be decoded (`\d` of a str regex + `int(_,16)`); `D20_fixed_witness`.
 -/
 namespace WcModel.C20
 open WcModel.Norm WcModel.RawChars
@@ -169,6 +168,14 @@ theorem adjacency_witness :
     -- FORCEWIN: only `\/`
     normPattern cfgWin "a\\/b/\\\\/\\x41".toList = .ok "a\\\\\\\\b/\\\\/\\x41".toList ∧
     normPattern cfgWinRaw "a\\/\\x41".toList = .ok "a\\\\\\\\A".toList := by decide +kernel
+
+/-- D20 (repaired by a `fix:` commit): a hex escape written with non-ASCII decimal digits is an
+    incomplete escape (SyntaxError), not the character `3`.  Fails again if the defect returns
+    in the model; the check's K3 stream compares the same inputs with the code. -/
+theorem D20_fixed_witness :
+    normPattern cfgRaw "\\x٣٣".toList = .error .syntax ∧
+    normPattern cfgRaw "\\u٣٣٣٣".toList = .error .syntax ∧
+    normPattern cfgRaw "\\U0000００４１".toList = .error .syntax := by decide +kernel
 
 /-- A scanner quirk that the token contract makes visible: the text of a `\N{…}` token is one
     token, so a `\/` inside it is not normalised under FORCEWIN (str only). -/
